@@ -76,3 +76,9 @@ Proof.
   revert l; induction n; destruct l; simpl; intros H; try contradiction.
   destruct H as [H|H]; [left; exact H|right; apply IHn; exact H].
 Qed.
+
+Lemma skipn_skipn {A} (x y : nat) (l : list A) : skipn x (skipn y l) = skipn (y + x) l.
+Proof.
+  revert l; induction y as [|y IH]; intros l; simpl; [reflexivity|].
+  destruct l as [|a l]; [rewrite skipn_nil; reflexivity|apply IH].
+Qed.
